@@ -95,6 +95,9 @@ def _build_ops(t):
         return _al(~b(t[1]), t[2])
     if k == "all":
         return _al(b(t[1]).all_(), t[2])
+    if k == "func" and t[1] == "MOD" and len(t[2]) == 2:
+        l = b(t[2][0])
+        return _al(l % b(t[2][1]), t[3]) if plain(l, "__mod__") else None     # the % operator spelling of MOD(x, y)
     return None
 
 
